@@ -5,17 +5,16 @@
 
    case "c03.hist":
      args = scion im [call ...] [xdesc ...] oracle_on scriptseed
-       call    = [reset ref [attempt ...]]
-       attempt = [now0 ctx1 [dgram ...]]
+       call    = [reset [attempt ...]]
+       attempt = [now0 ctx1 ref [dgram ...]]
        dgram   = [0] | [1 lvm stratum org.s org.f rx.s rx.f tx.s tx.f crx]
-       xdesc   = [lo0 srx stx theta hi3]
+       xdesc   = [lo0 srx stx theta hi3 fallback]
      outs = [call_out ...]
        call_out    = [[attempt_out ...] ok ts off err prev]
-       attempt_out = [lvm org.s org.f rx.s rx.f tx.s tx.f result]   (the request as seen on the wire)
+       attempt_out = [dst lvm org.s org.f rx.s rx.f tx.s tx.f result]   (the request as seen on the wire, and the server it went to)
        result      = [0 errclass] | [1 inter t0 t1 t2 t3 off rtd at prev]
        prev        = [ref inter ctx.s ctx.f crx.s crx.f srx.s srx.f]
-   case "c03.fallback", "c03.multi": see below
-   case "c03.kstamps": args = attempts fallback_tx fallback_rx (per worker process) *)
+   case "c03.fallback", "c03.multi", "c03.nofilter", "c03.kstamps": see below *)
 From Coq Require Import ZArith List String Bool.
 From ST Require Import Base.Ints Base.Value Model.NtpTime Model.Exchange Model.ExchangeOracle Extract.GlueBase.
 Import ListNotations.
@@ -40,19 +39,19 @@ Fixpoint parse_all {A} (f : value -> option A) (l : list value) : option (list A
 
 Definition parse_attempt (v : value) : option attempt_in :=
   match v with
-  | VL [VZ now0; VZ ctx1; VL ds] =>
+  | VL [VZ now0; VZ ctx1; VZ ref; VL ds] =>
       match parse_all parse_dgram ds with
-      | Some ds' => Some {| ai_now0 := now0; ai_ctx1 := ctx1; ai_dgrams := ds' |}
+      | Some ds' => Some {| ai_now0 := now0; ai_ctx1 := ctx1; ai_ref := ref; ai_dgrams := ds' |}
       | None => None
       end
   | _ => None
   end.
 
-Definition parse_call (v : value) : option (bool * Z * list attempt_in) :=
+Definition parse_call (v : value) : option (bool * list attempt_in) :=
   match v with
-  | VL [VZ reset; VZ ref; VL atts] =>
+  | VL [VZ reset; VL atts] =>
       match parse_all parse_attempt atts with
-      | Some a => Some (negb (reset =? 0), ref, a)
+      | Some a => Some (negb (reset =? 0), a)
       | None => None
       end
   | _ => None
@@ -60,8 +59,8 @@ Definition parse_call (v : value) : option (bool * Z * list attempt_in) :=
 
 Definition parse_xdesc (v : value) : option xdesc :=
   match v with
-  | VL [VZ lo0; VZ srx; VZ stx; VZ theta; VZ hi3] =>
-      Some {| x_lo0 := lo0; x_srx := srx; x_stx := stx; x_theta := theta; x_hi3 := hi3 |}
+  | VL [VZ lo0; VZ srx; VZ stx; VZ theta; VZ hi3; VZ fb] =>
+      Some {| x_lo0 := lo0; x_srx := srx; x_stx := stx; x_theta := theta; x_hi3 := hi3; x_fb := negb (fb =? 0) |}
   | _ => None
   end.
 
@@ -78,33 +77,40 @@ Definition result_val (r : ares) : value :=
                      VZ (a_off a); VZ (a_rtd a); VZ (a_ts a); prev_val (a_prev a)]
   end.
 
-Definition attempt_val (x : bool * pkt * ares) : value :=
+Definition attempt_val (ref : Z) (x : bool * pkt * ares) : value :=
   let '(_, q, r) := x in
-  VL [VZ (k_lvm q);
+  VL [VZ ref; VZ (k_lvm q);
       VZ (t64_sec (k_org q)); VZ (t64_frac (k_org q));
       VZ (t64_sec (k_rx q)); VZ (t64_frac (k_rx q));
       VZ (t64_sec (k_tx q)); VZ (t64_frac (k_tx q)); result_val r].
 
-Definition call_val (c : cfg) (o : call_out) : value :=
-  VL ([VL (map attempt_val (co_attempts o)); vbool (co_ok o);
+Fixpoint attempt_vals (refs : list Z) (l : list (bool * pkt * ares)) : list value :=
+  match l, refs with
+  | x :: l', r :: refs' => attempt_val r x :: attempt_vals refs' l'
+  | x :: l', [] => attempt_val 0 x :: attempt_vals [] l'
+  | [], _ => []
+  end.
+
+Definition call_val (c : cfg) (refs : list Z) (o : call_out) : value :=
+  VL ([VL (attempt_vals refs (co_attempts o)); vbool (co_ok o);
        VZ (if co_ok o then co_ts o else 0); VZ (if co_ok o then co_off o else 0);
        VZ (if co_ok o || c_scion c then 0 else co_err o); prev_val (co_prev o)]
       ++ (if co_starved o then [VZ 99] else [])).
 
 (* the model over a history, threading prev *)
-Fixpoint run_history (c : cfg) (p : prev_t) (calls : list (bool * Z * list attempt_in)) : list value :=
+Fixpoint run_history (c : cfg) (p : prev_t) (calls : list (bool * list attempt_in)) : list value :=
   match calls with
   | [] => []
-  | (reset, ref, atts) :: r =>
+  | (reset, atts) :: r =>
       let p0 := call_start c reset p in
-      let o := measure_call c ref p0 atts in
-      call_val c o :: run_history c (co_prev o) r
+      let o := measure_call c p0 atts in
+      call_val c (map ai_ref atts) o :: run_history c (co_prev o) r
   end.
 
 (* ---- the oracle on the implementation's observations ---- *)
 Definition obs_accept (v : value) : option (Z * Z * Z * Z * Z) :=
   match v with
-  | VL [_; _; _; _; _; _; _; VL (VZ 1 :: _ :: VZ t0 :: VZ t1 :: VZ t2 :: VZ t3 :: VZ off :: _)] =>
+  | VL [_; _; _; _; _; _; _; _; VL (VZ 1 :: _ :: VZ t0 :: VZ t1 :: VZ t2 :: VZ t3 :: VZ off :: _)] =>
       Some (off, t0, t1, t2, t3)
   | _ => None
   end.
@@ -159,9 +165,9 @@ Definition glue_C03 (k : string) (a o : list value) : option verdict :=
         match parse_dgram dg with
         | Some d =>
             let c := {| c_scion := negb (scion =? 0); c_im := false |} in
-            let x := {| x_lo0 := lo0; x_srx := srx; x_stx := stx; x_theta := theta; x_hi3 := hi3 |} in
+            let x := {| x_lo0 := lo0; x_srx := srx; x_stx := stx; x_theta := theta; x_hi3 := hi3; x_fb := false |} in
             let expected :=
-              match attempt c 1 prev_init {| ai_now0 := now0; ai_ctx1 := ctx1; ai_dgrams := [d] |} with
+              match attempt c prev_init {| ai_now0 := now0; ai_ctx1 := ctx1; ai_ref := 1; ai_dgrams := [d] |} with
               | (_, _, AAccept r) =>
                   [VZ (a_t0 r); VZ (a_t1 r); VZ (a_t2 r); VZ (a_t3 r); VZ (a_off r);
                    VZ (a_t0 r - lo0); VZ (Z.abs (a_off r - theta))]
@@ -173,26 +179,61 @@ Definition glue_C03 (k : string) (a o : list value) : option verdict :=
     | _, _ => None
     end
   else if is k "c03.multi" then
-    (* a round of MeasureClockOffsetSCION with two clients of which one fails first:
-       the round reports the one successful measurement.
-       args = t0 t1 t2 t3 (the stamps the successful client combined last) [xdesc ...]
+    (* a round of MeasureClockOffsetSCION with two clients in which exactly one
+       measurement was completed before the round returned: the round reports it.
+       args = round t0 t1 t2 t3 (the stamps the successful client combined) [xdesc ...]
        outs = ok offset timestamp *)
     match a, o with
-    | [VZ t0; VZ t1; VZ t2; VZ t3; VL xds], [VZ ok; VZ off; VZ ts] =>
+    | [VZ _; VZ t0; VZ t1; VZ t2; VZ t3; VL xds], [VZ ok; VZ off; VZ ts] =>
         match parse_all parse_xdesc xds with
         | Some xs =>
             Some (functional [VZ 1; VZ (clock_offset t0 t1 t2 t3); VZ ts] o
-                    (if ok =? 0 then true else C03_ok off t0 t1 t2 t3 xs))
+                    (negb (ok =? 0) && C03_ok off t0 t1 t2 t3 xs))
         | None => None
         end
     | _, _ => None
     end
+  else if is k "c03.nofilter" then
+    (* one basic exchange of a client without a measurement filter: only the offset
+       and the receive time come back.  The transmit stamp t0 is not observable; it
+       is the one that explains the offset (off = ((t1-t0)+(t2-t3))/2, so t0 is
+       t1+t2-t3-2*off up to the rounding), and it has to lie in the bracket of the
+       scripted exchange; the histogram then holds the delay of these four stamps.
+       args = scion now0 dgram lo0 srx stx theta hi3    outs = offset timestamp hist.count hist.max *)
+    match a, o with
+    | [VZ scion; VZ now0; dg; VZ lo0; VZ srx; VZ stx; VZ theta; VZ hi3], [VZ off; VZ ts; VZ hc; VZ hm] =>
+        match parse_dgram dg with
+        | Some (DgResp r _) =>
+            let x := {| x_lo0 := lo0; x_srx := srx; x_stx := stx; x_theta := theta; x_hi3 := hi3; x_fb := false |} in
+            let t1 := time_of_time64 (k_rx r) now0 in
+            let t2 := time_of_time64 (k_tx r) now0 in
+            let t3 := ts in
+            let cand d := t1 + t2 - t3 - 2 * off + d in
+            let explains d := clock_offset (cand d) t1 t2 t3 =? off in
+            let hist_ok d :=
+              let us := go_div (round_trip_delay (cand d) t1 t2 t3) 1000 in
+              (hc =? 1) && (us - 1 - us / 1000 <=? hm) && (hm <=? us + 1 + us / 1000) in
+            let model d :=
+              explains d && t64_eqb (k_org r) (time64_of_time now0) && metadata_ok r && hist_ok d in
+            Some (relational (existsb model [0; 1; -1])
+                    (existsb (fun d => explains d && C03_ok off (cand d) t1 t2 t3 [x]) [0; 1; -1]))
+        | _ => None
+        end
+    | _, _ => None
+    end
   else if is k "c03.kstamps" then
-    (* the client combines kernel timestamps; the fallback to a clock reading
-       (taken after the send / after the read) is the exception: at most 5 % of
-       the attempts of a worker *)
+    (* what a worker process reports about its run:
+       args = attempts fallback_tx fallback_rx histories dropped port_pairs same_ports
+       - the client combines kernel timestamps: the clock fallback is the exception
+         (the exchanges concerned are judged by the relaxed clause of the oracle);
+         a client that uses it for half of its exchanges violates the bound as a rule;
+       - fresh_socket_per_request: consecutive requests of one call come from
+         different source ports (equal ports by chance are rare);
+       - the harness recorded (almost) every history it scripted *)
     match a with
-    | [VZ n; VZ fbtx; VZ fbrx] => Some (relational ((fbtx * 20 <=? n) && (fbrx * 20 <=? n)) true)
+    | [VZ n; VZ fbtx; VZ fbrx; VZ hist; VZ dropped; VZ pairs; VZ same] =>
+        Some (relational (dropped * 20 <=? hist + 20)
+                ((fbtx * 2 <=? n) && (fbrx * 2 <=? n) && (same * 2 <=? pairs)))
     | _ => None
     end
   else None.
